@@ -17,6 +17,8 @@ struct CopyOnly { CopyOnly() = default; CopyOnly(CopyOnly const&) = default; Cop
 struct S { int d; int f(int) const; void g() &; int h() &&; int n(int) noexcept; };
 struct Fn { int operator()(int) &; long operator()(int) const&; char operator()(int) &&; short operator()(int) const&&; };
 struct Pred { bool operator()(int) const; };
+struct ConstCall { int operator()(int) const; int operator()(int) = delete; };
+struct MutCall { int operator()(int); int operator()(int) const = delete; };
 struct FromPair { FromPair(int, double); };
 template <class T> T&& dv() noexcept;
 template <class T> struct mirror { using type = T; };
@@ -141,4 +143,19 @@ def generate(quick):
     both(t, "etl::cref(m::dv<int&>())", "std::cref(m::dv<int&>())", "cref(int&)")
     for tr in ("is_trivially_copyable_v", "is_copy_constructible_v", "is_copy_assignable_v"):
         t.add("static_assert(std::%s<etl::reference_wrapper<int>> == std::%s<std::reference_wrapper<int>>);" % (tr, tr), "%s<reference_wrapper<int>>" % tr)
+    # the erased call keeps the cv-qualification of the referenced callable: binding must compile although the other overload
+    # is deleted (a thunk that casts the const away, or adds const, selects the deleted one and the instantiation fails)
+    t = tu()
+    for nm, code, label in (
+            ("c20_frc", "inline void w_fr_const() { m::ConstCall const c{}; etl::function_ref<int(int)> r{c}; (void)r; }",
+             "function_ref<int(int)> bound to a const callable calls its const operator()"),
+            ("c20_frm", "inline void w_fr_mut() { m::MutCall c{}; etl::function_ref<int(int)> r{c}; (void)r; }",
+             "function_ref<int(int)> bound to a mutable callable calls its non-const operator()")):
+        w = wit.TU(nm, PROLOGUE)
+        w.raw(code)
+        w.whole = {"label": label, "code": code}
+        tus.append(w)
+    t.add("static_assert(std::is_constructible_v<etl::function_ref<int(int)>, m::ConstCall const&> && "
+          "!std::is_constructible_v<etl::function_ref<int(int)>, m::MutCall const&>);",
+          "function_ref<int(int)> is constructible from exactly the callables invocable with their own cv-qualification")
     return tus, {}
